@@ -17,7 +17,7 @@ def engine_b(tier, seed):
 
 SPEC = ([("i%d" % k, int) for k in range(MAXL)] + [("d%d" % k, int) for k in range(10)] +
         [("rooted", bool), ("f_sup", bool), ("f_col", bool), ("ns_mode", int), ("t1", int), ("t2", int), ("f_x", bool),
-         ("shape", list), ("shape2", list), ("nbits", int)])
+         ("shape", list), ("shape2", list), ("nbits", int), ("stale", int)])
 
 
 def make_ns(nbits):
@@ -27,10 +27,10 @@ def make_ns(nbits):
 def assign_bits(kw, nleaves, nbits):
     """symbolic, pairwise distinct accession indices for the leaves"""
     idx = []
+    avail = list(range(nbits))
     for k in range(nleaves):
-        i = choose(kw["i%d" % k], nbits)
-        assume(i not in idx)
-        idx.append(i)
+        # k-th leaf takes the j-th of the indices still unused (no duplicate can arise)
+        idx.append(avail.pop(choose(kw["i%d" % k], len(avail))))
     return idx
 
 
@@ -95,7 +95,7 @@ def c01_encode(**kw):
     tns = make_ns(nbits)
     taxa = list(tns)
     tree, nodes, leaves = build_with_bits(parents, idx, tns, rooted, taxa)
-    perturb_namespace(tns, taxa, idx, kw["ns_mode"] if isinstance(kw["ns_mode"], int) and not hasattr(kw["ns_mode"], "var") else choose(kw["ns_mode"], 4))
+    perturb_namespace(tns, taxa, idx, kw["ns_mode"])
     bit_of = {}
     for i, t in enumerate(taxa):
         bit_of[id(t)] = 1 << i
@@ -204,7 +204,7 @@ def c01_redraw(**kw):
             u._child_nodes.append(x)
     if not rooted and mode == 2:
         cand = [x for x in tg.reachable(t2) if x._child_nodes]
-        t2.reseed_at(cand[choose(kw["ns_mode"], len(cand))], collapse_unrooted_basal_bifurcation=False,
+        t2.reseed_at(cand[choose(kw["i2"], len(cand))], collapse_unrooted_basal_bifurcation=False,
                      suppress_unifurcations=False)
     if tg.wellformed(t2) is not None:
         raise Fail("harness:redraw-broke-the-tree")
@@ -219,10 +219,21 @@ def c01_rebuild(**kw):
     p1 = list(kw["shape"])
     rooted = True if kw["rooted"] else False
     nl = sum(1 for i in range(len(p1) + 1) if i not in p1)
-    nbits = nl   # the tree spans the whole namespace
-    idx = assign_bits_rot(kw, nl)
-    tns = make_ns(nbits)
-    taxa = list(tns)
+    # the tree spans the whole namespace; the namespace optionally had one more taxon that was
+    # removed again (symbolic position: accession indices are then not 0..n-1)
+    if kw["f_col"]:
+        idx = assign_bits_skip(kw, nl)
+        tns = make_ns(nl + 1)
+        taxa = list(tns)
+        for i, t in enumerate(taxa):
+            if i not in idx:
+                tns.remove_taxon(t)
+        r = choose(kw["i1"], nl)
+        idx = [idx[(k + r) % nl] for k in range(nl)]
+    else:
+        idx = assign_bits_rot(kw, nl)
+        tns = make_ns(nl)
+        taxa = list(tns)
     t1, n1, l1 = build_with_bits(p1, idx, tns, rooted, taxa)
     enc = list(t1.encode_bipartitions())
     # the order of the non-trivial bipartitions is a symbolic permutation; the trivial ones
@@ -261,13 +272,14 @@ def c01_predicates(**kw):
     tns = make_ns(nbits)
     taxa = list(tns)
     t1, n1, l1 = build_with_bits(p1, idx, tns, rooted, taxa)
-    r = choose(kw["d0"], nl)
+    stale = kw["stale"]
+    r = 0 if stale else choose(kw["d0"], nl)
     perm = [idx[(k + r) % nl] for k in range(nl)]
     t2, n2, l2 = build_with_bits(p2, perm, tns, rooted, taxa)
     t1.encode_bipartitions(suppress_unifurcations=False, collapse_unrooted_basal_bifurcation=False)
     t2.encode_bipartitions(suppress_unifurcations=False, collapse_unrooted_basal_bifurcation=False)
     allset = tg.leafset(t1.seed_node)
-    x = n1[choose(kw["t1"], len(n1))]
+    x = n1[0 if stale else choose(kw["t1"], len(n1))]
     y = n2[choose(kw["t2"], len(n2))]
     bx, by = x._edge._bipartition, y._edge._bipartition
     X, Y = tg.leafset(x), tg.leafset(y)
@@ -298,6 +310,25 @@ def c01_predicates(**kw):
             tree_comp = False
     if t1.is_compatible_with_bipartition(by, is_bipartitions_updated=True) != tree_comp:
         return "is_compatible_with_bipartition-disagrees"
+    # history: the encoding exists, the topology is then edited without updating it, and the
+    # predicate is called with default arguments -> must reflect the current structure
+    if stale:
+        lv = [nd for nd in tg.reachable(t1) if not nd._child_nodes]
+        a = lv[choose(kw["i1"], len(lv))]
+        b = lv[choose(kw["i2"], len(lv))]
+        a.taxon, b.taxon = b.taxon, a.taxon
+        tree_comp = True
+        for nd in tg.reachable(t1):
+            Z = tg.leafset(nd)
+            if rooted:
+                c = (not (Z & Y)) or Z.issubset(Y) or Y.issubset(Z)
+            else:
+                Zc, Yc = allset - Z, allset - Y
+                c = (not (Z & Y)) or (not (Z & Yc)) or (not (Zc & Y)) or (not (Zc & Yc))
+            if not c:
+                tree_comp = False
+        if t1.is_compatible_with_bipartition(by) != tree_comp:
+            return "is_compatible_with_bipartition-stale-after-edit"
     return True
 
 
@@ -326,10 +357,10 @@ def harnesses(tier):
                   outside=["masks wider / trees larger than the bound", "is_mutable waiver misuse"], classify=classify)
     hs = []
     hs.append(Harness("c01_encode", "C01", c01_encode,
-                      [dict(shape=v, shape2=[], nbits=(nbits if _leaves(v) <= 3 else _leaves(v) + (0 if q else 1)), ns_mode=m)
+                      [dict(shape=v, shape2=[], nbits=((nbits if _leaves(v) <= 2 else 4) if q else (nbits if _leaves(v) <= 3 else _leaves(v) + 1)), ns_mode=m)
                        for v in shapes for m in range(4)],
                       bounds=dict(shapes="every ordered shape with 2..%d nodes, 2..%d leaves (polytomies, stars, caterpillars; unifurcations up to %d nodes)" % (nmax, 4 if q else 5, nmax_unif),
-                                  bits="each leaf taxon's accession index symbolic, pairwise distinct, in [0,%d) for <= 3 leaves, in [0,leaves%s) above" % (nbits, "" if q else "+1"),
+                                  bits="each leaf taxon's accession index symbolic, pairwise distinct, in [0,%d) for few leaves (quick: 2, thorough: <= 3), else in [0,%s)" % (nbits, "4" if q else "leaves+1"),
                                   namespace="as created / unused taxa removed / reversed / removed+sorted+extended (one shard each)",
                                   flags="rooting, suppress_unifurcations, collapse_unrooted_basal_bifurcation symbolic"), cost=3.0, **common))
     pairs = [(a, b) for a in shapes_nounif for b in shapes_nounif if _leaves(a) == _leaves(b) and a <= b]
@@ -358,4 +389,12 @@ def harnesses(tier):
                       functions=["Bipartition.is_trivial", "Bipartition.is_leafset_nested_within", "Bipartition.is_compatible_with",
                                  "Tree.is_compatible_with_bipartition"],
                       assumptions=common["assumptions"], outside=common["outside"], classify=classify))
+    st = [dict(shape=a, shape2=b, nbits=_leaves(a) + 1, stale=1) for a, b in ppairs if a <= b]
+    hs.append(Harness("c01_compat_stale", "C01", c01_predicates, st,
+                      bounds=dict(pairs="%d pairs of shapes" % len(st), history="encode; swap the taxa of two leaves (symbolic) without updating; is_compatible_with_bipartition with default arguments"),
+                      functions=["Tree.is_compatible_with_bipartition", "Tree.encode_bipartitions"],
+                      assumptions=common["assumptions"], outside=common["outside"], classify=classify))
+    for h in hs:
+        for sh in h.shards:
+            sh.setdefault("stale", 0)
     return hs
